@@ -166,6 +166,12 @@ MUTANTS = [
     ("c13-revert-restore-in-finally", "C13", "pylife/core/broadcaster.py",
      "        finally:\n            self._obj.index = original_obj_index\n            parameter.index = original_parameter_index\n            _replace_unique_string_with_none_name([self._obj, parameter], uuids)\n",
      "        finally:\n            pass\n        self._obj.index = original_obj_index\n        parameter.index = original_parameter_index\n        _replace_unique_string_with_none_name([self._obj, parameter], uuids)\n"),
+    ("c02-revert-exact-closure-4pt", "C02", "pylife/stress/rainflow/extension.pyx",
+     "        if (b > c and c >= a and d >= b) or (b < c and c <= a and d <= b):\n",
+     "        if fabs(b - c) <= fabs(a - b) and fabs(b - c) <= fabs(c - d):\n"),
+    ("c02-revert-exact-closure-3pt", "C02", "pylife/stress/rainflow/extension.pyx",
+     "                  ((front_val > start_val and back_val <= start_val) or\n                   (front_val < start_val and back_val >= start_val))):\n",
+     "                  fabs(back_val - front_val) >= fabs(front_val - start_val)):\n"),
     ("c04-revert-multipoint-upcast", "C04", "pylife/stress/rainflow/fkm_nonlinear.py",
      "            samples = samples.astype(np.float64)\n", "            pass\n"),
     ("c05-revert-first-load-step", "C05", "pylife/stress/rainflow/fkm_nonlinear.py",
